@@ -292,6 +292,32 @@ def t_ser(ctx, prog):
     for extra in sorted(have - set(SER_REF) - {'is_human_readable', 'collect_str'}):
         ctx.violation('T-SER', extra + '|unknown-method', 'Serializer::%s is implemented by the bridge but has no row in the representation table' % extra, None)
     ctx.floor('T-SER', 'methods', n, 28)
+    # collect_str: serde's default is serialize_str(&value.to_string()), i.e. one definite text item, which is what every string
+    # deserializer of the bridge reads.  An override may only refuse (the documented no-alloc stub) or write exactly that.
+    cs = prog.one(SER + 'collect_str')
+    if cs is not None:
+        where = mir.loc(cs['sp'])
+        try:
+            _, outs, m = l2.run_root(prog, cs, ov)
+        except Abort as e:
+            outs = None
+            ctx.violation('T-SER', 'collect_str|opaque', 'Serializer::collect_str is overridden and cannot be summarised (%s): its output must be one definite-length text item' % e, where)
+        for o in outs or []:
+            if o.kind != 'return':
+                ctx.violation('T-SER.total', 'collect_str', 'path does not return: %s' % o.why, where)
+                continue
+            items = [item_key(i) for i in l2.items_of(o.st.events)]
+            rk = l1.result_kind(o.value)
+            bad = [f for f in o.st.flags if f.startswith(('opaque', 'imprecise', 'trunc')) and not f.startswith('imprecise:branch')]
+            if rk == 'Err' and not items:
+                ctx.ok('T-SER', 'collect_str|refuses')
+            elif rk == 'Ok' and len(items) == 1 and items[0][0] == 'STR' and not bad:
+                ctx.ok('T-SER', 'collect_str|str')
+            elif any(e[0] == 'SINKERR' for e in o.st.events) and rk == 'Err':
+                ctx.ok('T-SER.errors', 'collect_str|sink', nontrivial=False)
+            else:
+                ctx.violation('T-SER', 'collect_str', 'collect_str writes %s%s; strings are one definite-length text item (what deserialize_str/string/identifier read), or the call is refused without output'
+                              % (fmt(items), (' [not exact: %s]' % ','.join(sorted(bad))) if bad else ''), where)
     ctx.rules_run.append('T-SER.compound: SeqSerializer methods: element/key/value/field write exactly their argument (struct fields: name as text, then value); end() writes a break iff the serializer was opened indefinite')
     k = 0
     for (tr, meth), want in sorted(SEQSER_REF.items()):
